@@ -23,7 +23,7 @@ import numpy as np
 import core
 
 LEAN_MODULE = "Optyx.Props.C13"
-EXTRA_MODULES = ["Optyx.Props.PinsC13"]   # transcription anchors (harness/source_pins.py)
+EXTRA_MODULES = ["Optyx.Props.PinsC13", "Optyx.Props.StateTie"]   # transcription anchors (harness/source_pins.py)
 THEOREMS = [
     "Optyx.Props.C13.inv_init",
     "Optyx.Props.C13.inv_step",
@@ -34,6 +34,11 @@ THEOREMS = [
     "Optyx.Props.C13.f12_breaks_solve_eq_fresh",
     "Optyx.Props.C13.half_applied_subject_to_breaks_inv",
     "Optyx.Props.Glue.lpGlue_text",
+    "Optyx.Props.StateTie.edits_are_source",
+    "Optyx.Props.StateTie.invalidate_eq",
+    "Optyx.Props.StateTie.subjectToBad_eq",
+    "Optyx.Props.StateTie.getIsLinear_eq",
+    "Optyx.Props.StateTie.readers_text",
     "Optyx.Props.PinsC13.anchors",
 ]
 ASSUMPTIONS = [
